@@ -33,6 +33,10 @@ M = {
  "c07-ne-absent": ("filter/evaluate.go", "\tv, ok := attrs[e.Name]\n\tif !ok {\n\t\treturn false, nil\n\t}\n\tswitch e.Op {", "\tv, ok := attrs[e.Name]\n\tif !ok {\n\t\treturn e.Op == OpNotEqual, nil\n\t}\n\tswitch e.Op {"),
  "c08-lookahead": ("filter/parser.go", "participle.UseLookahead(50)", "participle.UseLookahead(1)"),
  "c08-store-before-validate": ("services/grpc-subscriber.go", "return status.Errorf(codes.InvalidArgument, \"Invalid filter: %v\", err)", "subUpdate.SetMessageFilter(req.Subscription.Filter)\n\t\t\t\t\t\t_ = err\n\t\t\t\t\t\tcontinue"),
+ "c09-commit-on-error": ("ent/client-addons.go", "\t\tif !success {\n\t\t\terr = tx.Rollback()\n\t\t\top = \"Rollback\"", "\t\tif !success && false {\n\t\t\terr = tx.Rollback()\n\t\t\top = \"Rollback\""),
+ "c09-wake-before-commit": ("actions/notify.go", "\t\t\terr := c.Commit(ctx, tx)\n\t\t\tif err == nil {\n\t\t\t\tWakePublishListeners(false, subIDs...)\n\t\t\t}\n\t\t\treturn err", "\t\t\tWakePublishListeners(false, subIDs...)\n\t\t\treturn c.Commit(ctx, tx)"),
+ "c09-seek-swallow": ("actions/seek-subscription-to-time.go", "\t\tSetAttemptAt(now).\n\t\tSave(ctx)\n\tif err != nil {\n\t\treturn err\n\t}", "\t\tSetAttemptAt(now).\n\t\tSave(ctx)\n\tif err != nil {\n\t\terr = nil\n\t}"),
+ "c09-dl-complete-first": ("actions/ack-deliveries.go", "\tif err != nil {\n\t\treturn err\n\t}\n\n\ttx.OnCommit(", "\tif err != nil {\n\t\treturn err\n\t}\n\tfor _, s := range subIDs {\n\t\tWakePublishListeners(false, s)\n\t}\n\n\ttx.OnCommit("),
 }
 def main():
     name, checks = sys.argv[1], sys.argv[2].split(",")
